@@ -30,7 +30,14 @@ def main():
     out = sys.stdout
     for line in sys.stdin:
         r = json.loads(line)
-        errs = list(validators[r["file"]].iter_errors(r["doc"]))
+        try:
+            errs = []
+            for d in [r["doc"]] + list(r.get("extra") or []):   # every YAML document of the file, as an editor does
+                errs += list(validators[r["file"]].iter_errors(d))
+        except Exception as ex:  # e.g. a $ref that does not resolve: the published schema cannot be used on this document
+            out.write(json.dumps({"id": r["id"], "accept": False, "class": "structure", "keys": [], "keywords": ["schema-error:#"],
+                                  "msg": "published schema unusable: %s" % str(ex)[:200]}) + "\n")
+            continue
         if not errs:
             out.write(json.dumps({"id": r["id"], "accept": True, "class": "ok", "keys": [], "keywords": [], "msg": ""}) + "\n")
             continue
